@@ -47,6 +47,24 @@ CLAIMED["C06"] = dict(
          "known finding: interpolate with a zero-span (single distinct timestamp) query or source series returns NaN (empty default support).",
     technique="Coq theorems (cursor invariants per mode, induction on fuel) + extracted-model/implementation correspondence",
     design="5 C06")
+CLAIMED["C07"] = dict(
+    text="Proof: for every canonical old support and strictly increasing series inside it, the model of the (repaired) jitthreshold run detection yields a canonical new support "
+         "that contains every kept and no rejected sample (so restricting the original reproduces the result), lies inside the old support without bridging gaps, and whose "
+         "kept/rejected boundaries inside one epoch are midpoints; dropna's support separates kept from rejected rows when samples are more than 1 us apart, and is REFUTED "
+         "otherwise (known finding). Correspondence complete over 6 supports x <=4 samples x all value patterns x 4 methods on an even-tick dyadic lattice.",
+    note="Trusted: Coq kernel; model Model/Threshold.v tied to Tsd.threshold / dropna (Tsd, TsdFrame, TsdTensor) by differential execution; timestamps strictly increasing; "
+         "midpoints exact on even ticks.",
+    technique="Coq theorems (loop invariant over the epoch cursor, run/zip alignment) + extracted-model/implementation correspondence",
+    design="5 C07")
+CLAIMED["C08"] = dict(
+    text="Proof: the positional slice computed by the (repaired) _get_slice selects exactly the samples with start <= t <= end (duplicates at both edges) with their own rows; "
+         "get(start) returns a nearest sample (Python's wrap-around read shown harmless); trial-tensor rows are exactly each trial's samples, aligned and padded; trial_count rows "
+         "equal the per-trial binned counts of C05; warp_tensor is PARTIAL (equal bins when num_bins divides the trial duration). Correspondence complete over all multisets of <=4 "
+         "timestamps on a 6-point lattice x all windows on the half-lattice.",
+    note="Trusted: Coq kernel; np.searchsorted's contract (left=#{t<v}, right=#{t<=v}); model Model/Slice.v tied to get/get_slice/to_trial_tensor/trial_count/build_tensor/warp_tensor "
+         "by differential execution; known finding: get() on a zero-span series returns nothing (empty default support).",
+    technique="Coq theorems (split-at-count lemmas for sorted lists) + extracted-model/implementation correspondence",
+    design="5 C08")
 REASON_TODO = "check not built yet in this round (planned: DESIGN.md section 5)"
 m = {
     "version": 1,
